@@ -57,7 +57,7 @@ def _generate(ctx):
     if not behs:
         raise HarnessError("generator produced no behaviours:\n" + r.out[-2000:])
     total = len(behs)
-    mx = 200 if ctx.quick else 16000
+    mx = 200 if ctx.quick else 30000
     rnd = random.Random(ctx.seed)
     if len(behs) > mx:
         behs = rnd.sample(behs, mx)
@@ -108,6 +108,15 @@ def run(ctx):
     tspec = dict(P["trace"])
     tspec["specdir"] = P["specdir"]
     beh_path = None
+    if not ctx.replay:
+        # design leg: the two reference semantics agree through a TLA+ model of the conversion (I_Conv) on the
+        # whole small scope; also cross-checks the memoised form of the property against the plain form
+        cfg = "MC_I_Conv_quick.cfg" if ctx.quick else "MC_I_Conv.cfg"
+        r = core.design_check("k8snp", "I_Conv", cfg, workers=4, timeout=600 if ctx.quick else 2400, coverage=False, heap="4g")
+        if "C29_SPECBUG" in r.out or "C29_DIFF" in r.out:
+            raise HarnessError("design leg: specifications disagree:\n" + r.out[-3000:])
+        ctx.add_design(r)
+        log("design I_Conv/%s: %d policies, %.1fs" % (cfg, r.distinct, r.wall))
     if ctx.replay:
         beh_path = os.path.join(ctx.replay, "behaviours.json")
         if not os.path.exists(beh_path):
@@ -116,7 +125,7 @@ def run(ctx):
         groups = _generate(ctx)
         beh_path = os.path.join(ctx.work, "behaviours.json")
         json.dump(groups, open(beh_path, "w"))
-    n_random = 50 if ctx.quick else 2500
+    n_random = 50 if ctx.quick else 1000
     trace_path = os.path.join(ctx.work, "trace.ndjson")
     pipeline.run_driver(ctx, P["driver"], beh_path, trace_path, n_random)
 
@@ -143,10 +152,15 @@ def run(ctx):
                 nontrivial += 1
         if not tr.accepted:
             rejected.append(p)
+            m = re.search(r'<<\s*"C29_DIFF",.*?>>\s*$', tr.out, re.S | re.M)
+            if m:
+                log("first disagreement in %s: %s" % (os.path.basename(p), " ".join(m.group(0).split())[:600]))
     if unjudged:
         raise HarnessError("%d generated cases are outside the judged domain (generator produced invalid objects)" % unjudged)
     stats_rej = []
     for p in rejected:
+        if ctx.violations >= 2:
+            break       # enough reported; the remaining rejected slices would only repeat it
         tspec2 = dict(tspec)
         tspec2["beh_path"] = beh_path or ""
         st = pipeline.validate_all(ctx, tspec2, p, signature, rerun)
@@ -167,7 +181,7 @@ def run(ctx):
                                      "connections_compared": conns, "nontrivial_cases": nontrivial,
                                      "tlc_wall_s": round(tlc_wall, 1), "rejected": stats_rej}
     ctx.notes["exhaustive_note"] = ("thorough tier replays the complete TLC enumeration of the tiny vocabulary "
-                                    "(capped at 16000 by seed); the random leg is a sample")
+                                    "(24804 policies); the random leg is a sample")
     if len(traces) > 1:
         t_id, lines = traces[-1]
         ev = json.loads(lines[1]) if len(lines) > 1 else {}
